@@ -5,7 +5,8 @@ PROPERTY = "C10"
 
 
 def tasks(tier):
-    return contract_tasks("contracts.scheduler", "C10", tier=tier) + contract_tasks("contracts.sim_process", "C10", tier=tier)
+    return (contract_tasks("contracts.scheduler", "C10", tier=tier) + contract_tasks("contracts.sim_process", "C10", tier=tier)
+            + contract_tasks("contracts.progress", "C10", tier=tier) + lemma_tasks("contracts.progress", "C10"))
 
 
 TRUSTED_BASE = TRUSTED_CORE
